@@ -387,6 +387,7 @@ macro_rules! impl_cache {
                     callback: self.callback.clone(),
                     key_to_hash: self.key_to_hash.clone(),
                     is_closed: self.is_closed.clone(),
+                    stopped: self.stopped.clone(),
                     coster: self.coster.clone(),
                     metrics: self.metrics.clone(),
                     _marker: self._marker,
@@ -479,10 +480,8 @@ macro_rules! impl_cache_processor {
 
                         Ok(())
                     }
-                    $item::Wait(wg) => {
-                        wg.done();
-                        #[cfg(transparencies_stretto_verif)]
-                        crate::verif::emit(|| crate::verif::Event::WaitDone);
+                    $item::Wait(signal) => {
+                        drop(signal);
                         Ok(())
                     }
                 }
@@ -760,11 +759,7 @@ macro_rules! impl_cache_cleaner {
                         expiration,
                     )),
                     $item::Delete { .. } | $item::Update { .. } => {}
-                    $item::Wait(wg) => {
-                        let _ = wg.done();
-                        #[cfg(transparencies_stretto_verif)]
-                        crate::verif::emit(|| crate::verif::Event::WaitDone);
-                    }
+                    $item::Wait(signal) => drop(signal),
                 }
             }
         }
